@@ -9,7 +9,8 @@ def config(config_tree, rules):
         matched_lines = [line for line in config_tree.keys() if rule["regexp"].match(line)]
         if rule["type"] != "ignore":
             if not any(matched_lines) and row not in config_tree:
-                implicit_config_tree[row] = odict()
+                # a default block brings its own default children with it
+                implicit_config_tree[row] = config(odict(), rule["children"])
         for line in matched_lines:
             implicit_config_tree[line] = config(config_tree[line], rule["children"])
     return implicit_config_tree
